@@ -83,6 +83,8 @@ def _ascending_for(ctx, test, sign_text):
 
 
 def check(ctx, rep):
+    from ..sigils import check as _sigils
+    _sigils(ctx, rep, ['pcbasic/basic/interpreter.py:Interpreter.for_'], 2)
     # ---- error sites --------------------------------------------------------
     found = {}
     for fn in ctx.idx.functions('pcbasic/basic/'):
@@ -363,6 +365,8 @@ def variants(ctx):
         Va('else-skips-one-statement-only', 'break', 'pcbasic/basic/parser/statements.py',
            lambda tree: mu.set_dict_value(mu.find_assign_value(mu.find_def(tree, 'Parser._init_syntax'), 'self._simple'), 'tk.ELSE', 'self._skip_statement'),
            expect='if.else-skips-rest-of-line'),
+        Va('for-types-the-counter-from-the-uncompleted-name', 'break', INTERP,
+           in_fn('for_', lambda fn: mu.replace_expr(fn, mu.text_is('self._memory.complete_name(next(args))'), 'next(args)')), expect='names.sigil-read-from-completed-name'),
         Va('for-push-via-local', 'neutral', INTERP, in_fn('for_', lambda fn: mu.rename_local(fn, 'ins', 'stream'))),
     ]
 
